@@ -188,6 +188,8 @@ HAND_DFS = [  # (layout, stacks, blinds ante/dealer/sb/bb, decks)
     ("deadbtn3", "3,4,2;5,2,3", "1,0,1,2", "rand,2-2-0"),
     ("std4", "2,3,4,3", "0,2,1,2", "rand,3-2-1-0"),
     ("twodealer", "3,2,4,3", "0,0,1,2", "rand"),
+    ("std2", "4,5;3,3", "0,1,1,2", "rand,0-1"),          # heads-up under a dealer blind: the button holds dealer + sb
+    ("deadbtn3", "5,4,6", "0,2,1,2", "rand"),            # dead button under a dealer blind
 ]
 HAND_DFS_THOROUGH = [
     ("std3", "5,9,7;6,3,8", "0,0,1,2", "rand,0-1-2,2-0-0"),
